@@ -43,6 +43,22 @@ pub fn gamma(z: f64) -> f64 {
 
 /// Calculates the [beta function](https://en.wikipedia.org/wiki/Beta_function) using the
 /// relationship between the beta function and the gamma function.
+/// Natural logarithm of the [gamma function](https://en.wikipedia.org/wiki/Gamma_function) for
+/// `z > 0`, from the same Lanczos approximation as [gamma](gamma) but evaluated in log space, so it
+/// stays finite where `gamma` overflows (z > 171).
+pub fn ln_gamma(z: f64) -> f64 {
+    if z < 0.5 {
+        (PI / ((PI * z).sin() * gamma(1. - z))).ln()
+    } else {
+        let mut x = 0.99999999999999709182;
+        for (idx, val) in GAMMA_COEFFS.iter().enumerate() {
+            x += val / ((z - 1.) + (idx as f64) + 1.);
+        }
+        let t = (z - 1.) + G - 0.5;
+        0.5 * (2. * PI).ln() + ((z - 1.) + 0.5) * t.ln() - t + x.ln()
+    }
+}
+
 pub fn beta(a: f64, b: f64) -> f64 {
     gamma(a) * gamma(b) / gamma(a + b)
 }
